@@ -691,16 +691,42 @@ func (r *HeaderFooterResult) FilterFragments(pageIndex int, fragments []text.Tex
 		minY, maxY = 0, pageHeight
 	}
 
+	// Character-level page: individual characters cannot be compared with the
+	// header/footer text, so decide per assembled line (the same assembly that
+	// detection uses) and drop the characters of the matching lines only.
+	var dropLines []text.TextFragment
+	if charLevel {
+		for _, line := range assembleFragmentsIntoLines(fragments) {
+			if r.isInHeaderFooter(pageIndex, line, minY, maxY, headerRegion, footerRegion, invertedCoords, false) {
+				dropLines = append(dropLines, line)
+			}
+		}
+	}
+
 	var filtered []text.TextFragment
 
 	for _, frag := range fragments {
-		if r.isInHeaderFooter(pageIndex, frag, minY, maxY, headerRegion, footerRegion, invertedCoords, charLevel) {
+		if charLevel {
+			if onAnyLine(frag, dropLines) {
+				continue
+			}
+		} else if r.isInHeaderFooter(pageIndex, frag, minY, maxY, headerRegion, footerRegion, invertedCoords, false) {
 			continue
 		}
 		filtered = append(filtered, frag)
 	}
 
 	return filtered
+}
+
+// onAnyLine reports whether a character fragment belongs to one of the assembled lines.
+func onAnyLine(frag text.TextFragment, lines []text.TextFragment) bool {
+	for _, line := range lines {
+		if absFloat(frag.Y-line.Y) <= frag.Height*0.5 && frag.X >= line.X-0.5 && frag.X <= line.X+line.Width+0.5 {
+			return true
+		}
+	}
+	return false
 }
 
 // isInHeaderFooter checks if a fragment is in a detected header/footer region
